@@ -108,6 +108,15 @@ pub fn lane_main(args: &Args) -> i32 {
             }
         }
         let nt = if spec.engine == "sysim" { sysim::nontrivial(spec.id, &sc, &out) } else { checks::nontrivial(spec.id, &sc, &out) };
+        if let Ok(p) = std::env::var("VERIF_DUMP_HASHES") {
+            use std::io::Write;
+            if let Ok(mut f) = std::fs::OpenOptions::new().create(true).append(true).open(&p) {
+                let mut hs = out.sub_hashes.clone();
+                hs.sort();
+                let line = format!("{} {} {:016x} {:016x} viols={}\n", spec.id, r, log_hash(&out), hs.iter().fold(0u64, |a, b| mix(a, *b)), out.viols.len());
+                let _ = f.write_all(line.as_bytes());
+            }
+        }
         if out.subruns > 0 {
             for h in &out.sub_hashes {
                 hashes.insert(*h);
@@ -441,7 +450,7 @@ pub fn orchestrate(args: &Args) -> i32 {
         exit = 1;
         let scratch = scratch_base().join("min");
         let mut ctx = Ctx::new(&args.workers, &scratch);
-        let replays = args.verif.join("replays");
+        let replays = std::env::var("VERIF_REPLAY_DIR").map(PathBuf::from).unwrap_or_else(|_| args.verif.join("replays"));
         std::fs::create_dir_all(&replays).ok();
         let per = (90 / new_viol.len().max(1) as u64).max(10);
         for (i, (sig, v)) in new_viol.iter().enumerate() {
@@ -547,7 +556,9 @@ pub fn orchestrate(args: &Args) -> i32 {
     });
     let evdir = args.verif.join("evidence");
     std::fs::create_dir_all(&evdir).ok();
-    if std::fs::write(evdir.join(format!("{}.json", spec.id)), serde_json::to_string_pretty(&ev).unwrap_or_default()).is_err() {
+    if std::env::var("VERIF_NO_EVIDENCE").is_ok() {
+        // sensitivity runs against a deliberately broken tree must not overwrite the evidence of the real tree
+    } else if std::fs::write(evdir.join(format!("{}.json", spec.id)), serde_json::to_string_pretty(&ev).unwrap_or_default()).is_err() {
         eprintln!("HARNESS-ERROR: cannot write evidence");
         return 2;
     }
